@@ -77,13 +77,14 @@ type cellKey struct {
 }
 
 type Interp struct {
-	Fn       *ssa.Function
-	Input    func(v ssa.Value) (AV, bool)                           // declared inputs for this valuation
-	Mark     func(in ssa.Instruction) int                           // bit index of a pass-through mark, or -1
-	Outcome  func(in ssa.Instruction, ev func(ssa.Value) AV) string // "" = not an outcome
-	Inline   func(callee *ssa.Function) bool                        // evaluate these callees recursively (nil: same-package callees)
-	NoInline bool                                                   // never inline
-	Start    ssa.Instruction                                        // nil = function entry
+	Fn        *ssa.Function
+	Input     func(v ssa.Value) (AV, bool)                           // declared inputs for this valuation
+	Mark      func(in ssa.Instruction) int                           // bit index of a pass-through mark, or -1
+	Outcome   func(in ssa.Instruction, ev func(ssa.Value) AV) string // "" = not an outcome
+	Inline    func(callee *ssa.Function) bool                        // evaluate these callees recursively (nil: same-package callees)
+	NoInline  bool                                                   // never inline
+	FoldArith bool                                                   // also fold + - * on constants (loop-free functions only: a loop counter would unroll)
+	Start     ssa.Instruction                                        // nil = function entry
 	// LoadField supplies the value of a field loaded through a symbolic base
 	LoadField func(base AV, owner, field string) (AV, bool)
 	MaxStates int
@@ -389,7 +390,13 @@ func (it *Interp) execBlock(s *istate) []*istate {
 			if ia, ok := it.inputOf(x); ok {
 				s.env[x] = ia
 			} else {
-				s.env[x] = foldBin(x.Op, ev(x.X), ev(x.Y))
+				av, bv := ev(x.X), ev(x.Y)
+				if it.FoldArith && av.K == KConst && bv.K == KConst && av.C.Kind() == constant.Int && bv.C.Kind() == constant.Int &&
+					(x.Op == token.ADD || x.Op == token.SUB || x.Op == token.MUL) {
+					s.env[x] = AV{K: KConst, C: constant.BinaryOp(av.C, x.Op, bv.C)}
+				} else {
+					s.env[x] = foldBin(x.Op, av, bv)
+				}
 			}
 		case *ssa.Call:
 			if ia, ok := it.inputOf(x); ok {
